@@ -378,15 +378,27 @@ func fnSort(ctx *cmdContext, args map[string]any) (output respValue, err error) 
 }
 
 func fnFlushAll(ctx *cmdContext, args map[string]any) (output respValue, err error) {
-	ctx.cs.dss.flushAll()
-	ctx.cs.selectDb(ctx.cs.selectedDb, true)
+	// More than one data store gets locked (one after the other). The global lock
+	// keeps two such operations from waiting for each other; inside a transaction
+	// EXEC has taken it already, before it locked its own data store.
+	if !ctx.multi {
+		multiDataStoreLock.Lock()
+		defer multiDataStoreLock.Unlock()
+	}
+
+	for _, ds := range ctx.cs.dss.allDbs() {
+		if ds == ctx.dsc.ds {
+			ctx.dsc.flush()
+		} else {
+			ds.newDataStoreCommand().flush()
+		}
+	}
 	output.data = rstrOK
 	return
 }
 
 func fnFlushDb(ctx *cmdContext, args map[string]any) (output respValue, err error) {
-	ctx.cs.dss.flushDb(ctx.cs.selectedDb)
-	ctx.cs.selectDb(ctx.cs.selectedDb, true)
+	ctx.dsc.flush()
 	output.data = rstrOK
 	return
 }
